@@ -13,6 +13,8 @@
      N name param T nin nhid nout | sizes | params | inputs | labels    (ErrorFunction on LinearModel >> LinearModel)
      Z zov thr dim | sizes | labels | preds | weights                   (ZeroOneLoss weighted eval)
      A invert T [dim] | sizes | labels | scores (n*dim numbers)         (NegativeAUC: a=<q> | a=nan | EXC)
+     P T nin | sizes | params | inputs                                  (NegativeLogLikelihood of LinearModel(nin,1) with offset; the
+                                                                         model's logarithm parameter = float log embedded into Q)
      S sq ignore dim reuse | lens | labels | preds                      (SquaredLoss<Sequence,Sequence>; EXC = documented exception)
    Lines with real (non-rational) data run the float instantiation of the Section-polymorphic functions for
    ce, cev, huber, abs (L lines); all other real-data lines print "<kind> -". *)
@@ -59,6 +61,21 @@ let rec rows d l = if l = [] || d <= 0 then [] else take d l :: rows d (drop d l
 let rec chunk szs l = match szs with [] -> [] | s :: r -> take s l :: chunk r (drop s l)
 
 let q0 = { qnum = Z0; qden = XH }
+
+(* exact conversions between Q and IEEE doubles (every finite double is a rational number) *)
+let rec pos_to_float = function XH -> 1.0 | XO q -> 2.0 *. pos_to_float q | XI q -> 2.0 *. pos_to_float q +. 1.0
+let z_to_float = function Z0 -> 0.0 | Zpos p -> pos_to_float p | Zneg p -> -. pos_to_float p
+let float_of_q (x : q) = z_to_float x.qnum /. pos_to_float x.qden
+let rec pos_shift p k = if k <= 0 then p else pos_shift (XO p) (k - 1)
+let q_of_float (f : float) : q =
+  if f = 0.0 then q0 else begin
+    let (m, e) = frexp f in
+    let mi = int_of_float (ldexp (abs_float m) 53) in       (* 53-bit integer mantissa *)
+    let e' = e - 53 in
+    let num = pos_of_int mi in
+    let num, den = if e' >= 0 then (pos_shift num e', XH) else (num, pos_shift XH (- e')) in
+    { qnum = (if f > 0.0 then Zpos num else Zneg num); qden = den }
+  end
 let qhd l = match l with x :: _ -> x | [] -> q0
 
 type family = VV | CV | CC | Other
@@ -232,6 +249,16 @@ let handle l =
        | AucExc -> "A EXC"
        | AucNaN -> "A a=nan"
        | AucVal a -> "A a=" ^ qs a)
+    | "P" ->
+      let t = int_of_string hd.(1) and nin = int_of_string hd.(2) in
+      let szs = isec 1 and params = qsec 2 and ins = rows nin (qsec 3) in
+      let m = { lW = rows nin (take nin params); lb = drop nin params } in
+      let lg x = q_of_float (log (float_of_q x)) in
+      let minp = q_of_float 1e-100 in
+      let peval x = qhd (lin_eval m x) in
+      let d = chunk szs ins in
+      let v = nll_eval lg minp peval d and r = nll_evald lg minp peval lin_wpd (nat_of_int t) d in
+      Printf.sprintf "P v=%s dv=%s g=%s" (qs v) (qs (qhd r)) (qv (List.tl r))
     | "S" ->
       (* the caller's gradient object: empty, or (reuse = 1) the result of an earlier call on other data (all ones, same shape) *)
       let ign = nat_of_int (int_of_string hd.(2)) and dim = int_of_string hd.(3) and reuse = hd.(4) = "1" in
